@@ -49,6 +49,17 @@ func MethodPool() *hist.Pool {
 	}
 }
 
+// NestPool: one method, a leaf with a single radix child that itself carries static, parameter and
+// catch-all children (the node merges of Delete), explored with more live routes.
+func NestPool() *hist.Pool {
+	return &hist.Pool{
+		Methods:    []string{"GET"},
+		Patterns:   []string{"/a", "/a/", "/a/b", "/a/{x}", "/a/*{w}", "/a/b/*{w}", "/a/b/c"},
+		BadMethod:  "get",
+		BadPattern: "/{x",
+	}
+}
+
 // Case is a replayable C02 case: an operation list whose last operation is the one checked.
 type Case struct {
 	Quick    bool      `json:"quick"`
@@ -152,6 +163,7 @@ func run(c *mc.Ctx, r *mc.Result) {
 	}
 	runBFS(c, r, "siblings", SiblingPool(), sib, true)
 	runBFS(c, r, "methods", MethodPool(), 3, false)
+	runBFS(c, r, "nested", NestPool(), sib-1, false)
 	runFan(c, r)
 }
 
@@ -255,6 +267,9 @@ func replay(c *mc.Ctx, raw json.RawMessage) string {
 	}
 	if cs.Pool == "methods" {
 		p = MethodPool()
+	}
+	if cs.Pool == "nested" {
+		p = NestPool()
 	}
 	if cs.Pool == "fan" {
 		// the pool is every pattern that occurs in the history
